@@ -36,6 +36,8 @@ def to_step(act):
         return dict(op=op, slot=a[0], sev=a[1], tag=a[2])
     if op == "Stream":
         return dict(op=op, slot=a[0], item=concrete_item(a[1]))
+    if op == "Move":
+        return dict(op=op, slot=a[0], to=a[1])
     return dict(op=op, slot=a[0])
 
 
@@ -150,6 +152,11 @@ def gen_program(rng, n):
             if alive[s] < 6:
                 alive[s] += 1
                 steps.append(dict(op="Stream", slot=s, item=item(alive[s], named=True)))
+        elif alive and r < 0.93 and len(alive) < 3:
+            s = rng.choice(sorted(alive))
+            t = rng.choice([k for k in (1, 2, 3) if k not in alive])
+            alive[t] = alive.pop(s)
+            steps.append(dict(op="Move", slot=s, to=t))
         elif alive:
             s = rng.choice(sorted(alive))
             del alive[s]
@@ -182,7 +189,7 @@ def record(chk, exes, n):
                 op = s["op"]
                 args = {"SetThr": lambda: [s["i"], s["v"]], "Expr": lambda: [s["sev"], s["tag"], s["items"]],
                         "Begin": lambda: [s["slot"], s["sev"], s["tag"]], "Stream": lambda: [s["slot"], s["item"]],
-                        "End": lambda: [s["slot"]]}[op]()
+                        "End": lambda: [s["slot"]], "Move": lambda: [s["slot"], s["to"]]}[op]()
                 if k >= len(steps):
                     # the process died in this statement: an event no action of the specification explains
                     evs.append(dict(e=op, args=args, kind=str(o.get("outcome")), fmt=[], sinks=[], called=0))
